@@ -3,9 +3,9 @@ Driver for C05: runs the reduction model on concrete values with the harness' re
 regressor (a position-sensitive polynomial hash, mirrored in harness/corr/C05.py).
 
   C05 swt <sci> <wl> <fh> <y> <X>
-  C05 run <strategy> <sci> <wl> <fhFit> <fhPred> <t0> <y> <X> <upd> <u0> <uy> <uX> <Xp>
+  C05 run <hash|drift> <strategy> <sci> <wl> <fhFit> <fhPred> <t0> <y> <X> <upd> <u0> <uy> <uX> <Xp>
      upd = no | upd | refit (update, batch starting at label u0) | up | uprefit (update_predict)
-  C05 hist <via> <step> <strategy> <sci> <wl> <fhFit> <t0> <y> <X> <failAfter> <op> <op> ...
+  C05 hist <hash|drift> <via> <step> <strategy> <sci> <wl> <fhFit> <t0> <y> <X> <failAfter> <op> <op> ...
      via = make | cls | rf | rrf;  failAfter = none | k (the regressor raises on its (k+1)-th predict call)
      op = U@<u0>@<uy>@<uX>@<T|F> | W@<u0>@<uy>@<Xup>@<T|F> | P@<fh>@<Xp>     (operations continue after a failure)
 
@@ -74,6 +74,19 @@ def hashReg : Regressor Val where
     let s := Y.foldl (fun a row => hl ((a * 37 + 3) % P) row) ((sigX X * 131 + 2) % P)
     .num (2 * hi ((s + 1 + (j : Int)) % P) inst + 1)
 
+/-- second recording regressor ("drift"): ignores the training data and returns the last entry of the
+instance plus one half (plus `j` for output `j`), so that its outputs stay next to the data it is fed -/
+def addHalves (k : Int) : Val → Val
+  | .num i => .num (i + k)
+  | v => v
+
+def driftReg : Regressor Val where
+  train _ _ := fun inst => addHalves 1 (inst.flatten.getLast?.getD (.num 0))
+  trainM _ _ := fun inst j => addHalves (1 + 2 * (j : Int)) (inst.flatten.getLast?.getD (.num 0))
+
+def parseReg? (s : String) : Option (Regressor Val) :=
+  if s == "hash" then some hashReg else if s == "drift" then some driftReg else none
+
 def showVals (l : List Val) : String := if l.isEmpty then "-" else ",".intercalate (l.map showVal)
 def showInst (i : Inst Val) : String := if i.isEmpty then "-" else "|".intercalate (i.map showVals)
 def showRows (l : List (List Val)) : String := if l.isEmpty then "-" else ";".intercalate (l.map showVals)
@@ -126,7 +139,10 @@ def handle (toks : List String) : String :=
       | .error e => showErr e
       | .ok (yt, Xt) => s!"yt={showRows yt} Xt={showInsts sci Xt}"
     | _, _, _, _, _ => "bad-op"
-  | ["run", s, sci, wl, fhFit, fhPred, t0, y, X, upd, u0, uy, uX, Xp] =>
+  | ["run", rg, s, sci, wl, fhFit, fhPred, t0, y, X, upd, u0, uy, uX, Xp] =>
+    match parseReg? rg with
+    | none => "bad-op"
+    | some theReg =>
     match parseStrategy? s, parseSci? sci, parseWl? wl, parseFh? fhFit, parseFh? fhPred, parseInt? t0,
           parseVals? y, parseRows? X, parseInt? u0, parseVals? uy, parseRows? uX, parseRows? Xp with
     | some s, some sci, some wl, some fhFit, some fhPred, some t0, some y, some X, some u0, some uy, some uX, some Xp =>
@@ -143,18 +159,21 @@ def handle (toks : List String) : String :=
       match updE with
       | none => "bad-op"
       | some u =>
-        let (calls, res) := run vals hashReg s sci wl t0 y X fhFit u fhPred Xp
+        let (calls, res) := run vals theReg s sci wl t0 y X fhFit u fhPred Xp
         let cs := if calls.isEmpty then "-" else "/".intercalate (calls.map (showCall sci))
         let rs := match res with
           | .error (e, st) => s!"{showErr e}@{showStage st}"
           | .ok out => if out.isEmpty then "-" else ",".intercalate (out.map fun (p : Int × Val) => s!"{p.1}:{showVal p.2}")
         s!"calls={cs} res={rs}"
     | _, _, _, _, _, _, _, _, _, _, _, _ => "bad-op"
-  | "hist" :: via :: step :: s :: sci :: wl :: fhFit :: t0 :: y :: X :: fail :: ops =>
+  | "hist" :: rg :: via :: step :: s :: sci :: wl :: fhFit :: t0 :: y :: X :: fail :: ops =>
+    match parseReg? rg with
+    | none => "bad-op"
+    | some theReg =>
     match parseVia? via, parseInt? step, parseStrategy? s, parseSci? sci, parseWl? wl, parseFh? fhFit, parseInt? t0,
           parseVals? y, parseRows? X, parseBudget? fail, ops.mapM parseOp? with
     | some via, some step, some s, some sci, some wl, some fhFit, some t0, some y, some X, some b, some ops =>
-      let (calls, res) := runHist vals hashReg via step s sci wl t0 y X fhFit b ops
+      let (calls, res) := runHist vals theReg via step s sci wl t0 y X fhFit b ops
       let cs := if calls.isEmpty then "-" else "/".intercalate (calls.map (showCall sci))
       let rs := match res with
         | .error e => s!"{showErr e}@fit"
